@@ -12,7 +12,7 @@ ASSUMPTIONS = c03.ASSUMPTIONS + ['"eventually" is judged after a fair drain: eve
 EXHAUSTIVE_NOTE = c03.EXHAUSTIVE_NOTE
 
 OWN = {'C01'}
-WEIGHTS = {'enqueue': 3, 'release': 14, 'tick': 4, 'advance': 1, 'flush': 1, 'announce': 1, 'restart': 1, 'serve': 8, 'storage': 2}
+WEIGHTS = {'enqueue': 3, 'release': 14, 'tick': 4, 'advance': 1, 'flush': 1, 'announce': 1, 'restart': 1, 'serve': 6, 'storage': 2, 'answer': 4}
 
 
 def nontrivial(labels, stats, cfg, acts):
@@ -25,6 +25,7 @@ def run_shard(ctx):
     qmgen.drive_enumeration(ctx, OWN, bks, 4 if ctx.thorough else 3, 3)
     strat = qmgen.history(qmgen.configs(bks, pools=True, announce=True, bounce=True), WEIGHTS)
     qmgen.drive_histories(ctx, OWN, strat, ctx.n(1500, 25000), nontrivial)
+    qmgen.drive_histories(ctx, OWN, qmgen.burst_history(), ctx.n(1500, 25000), nontrivial, salt=7)
 
 
 def replay(case):
